@@ -108,3 +108,187 @@ Proof.
   rewrite Hs. cbn [bind]. exists w. split; [reflexivity|]. cbn [map existsb] in *. rewrite Hcodes, Ho, Hu.
   rewrite overflow_id by assumption. unfold in_range in Hin. repeat split; lia.
 Qed.
+
+(* ---------- storing a list of exact, in-range integers ---------- *)
+Lemma reduce_store_exact fz r o zs : 1 <= nw fz <= 62 -> Forall (in_range fz) zs ->
+  exists w, reduce_store fz r o zs = Ok w /\ w_codes w = zs /\ w_ovf w = false /\ w_unf w = false.
+Proof.
+  intros Hw Hin. unfold reduce_store. replace (64 <=? nw fz) with false by lia.
+  assert (Hzb: Forall (fun z => Z.abs z < 2^63) zs).
+  { eapply Forall_impl; [|exact Hin]. intros z Hz. unfold in_range, cmin, cmax in Hz.
+    assert (2^(nw fz - 1) <= 2^61) by (apply pow2_le; lia). assert (2^(nw fz) <= 2^62) by (apply pow2_le; lia).
+    assert (2^61 < 2^63) by (apply pow2_lt; lia). assert (2^62 < 2^63) by (apply pow2_lt; lia). assert (0 < 2^(nw fz - 1)) by (apply pow2_pos; lia).
+    destruct (sg fz); lia. }
+  destruct (set_val_raw_i64 fz r o zs ltac:(lia) Hzb) as (w & Hs & Hcodes & Ho & Hu).
+  exists w. split; [exact Hs|]. rewrite Hcodes, Ho, Hu. repeat split.
+  - apply map_fix. intros z Hz. rewrite Forall_forall in Hin. apply overflow_id; [lia|]. apply Hin. exact Hz.
+  - apply existsb_false. eapply Forall_impl; [|exact Hin]. intros z Hz. unfold in_range in Hz. lia.
+  - apply existsb_false. eapply Forall_impl; [|exact Hin]. intros z Hz. unfold in_range in Hz. lia.
+Qed.
+
+(* ---------- dot: the sum of the products, exact, no flag, any length ---------- *)
+Theorem fxp_dot_exact fx fy xs ys r o : 1 <= nw fx -> 1 <= nw fy -> length xs = length ys -> (1 <= length xs)%nat ->
+  clog2 (Z.of_nat (length xs)) + nw fx + nw fy <= 62 -> Forall (in_range fx) xs -> Forall (in_range fy) ys ->
+  let prods := map (fun p => fst p * snd p) (combine xs ys) in
+  exists w, fxp_dot fx fy xs ys r o = Ok (dot_fmt fx fy (Z.of_nat (length xs)), w) /\
+    w_codes w = [zsum prods] /\ w_ovf w = false /\ w_unf w = false.
+Proof.
+  intros Hwx Hwy Hlen Hne H62 Hrx Hry prods.
+  pose proof (dot_in_range fx fy xs ys Hwx Hwy Hlen Hne Hrx Hry) as Hin. fold prods in Hin.
+  set (n := Z.of_nat (length xs)) in *. assert (Hn: 1 <= n) by (unfold n; lia).
+  pose proof (clog2_ge n Hn) as Hc. pose proof (clog2_nonneg n) as Hc0.
+  assert (Hlp: length prods = length xs) by (unfold prods; rewrite map_length, combine_length; lia).
+  assert (Hsum: sum_i64 true prods = zsum prods).
+  { apply (sum_i64_exact prods (2^(nw fx + nw fy))).
+    - assert (0 < 2^(nw fx + nw fy)) by (apply pow2_pos; lia). lia.
+    - unfold prods. rewrite Forall_map. apply Forall_forall. intros [a b] Hp. cbn [fst snd]. rewrite Forall_forall in Hrx, Hry.
+      pose proof (Hrx a (in_combine_l _ _ _ _ Hp)) as Ha. pose proof (Hry b (in_combine_r _ _ _ _ Hp)) as Hb.
+      destruct (code_mag fx a Hwx Ha) as (Sa & Ua). destruct (code_mag fy b Hwy Hb) as (Sb & Ub).
+      assert (Z.abs a <= 2^(nw fx)).
+      { assert (E: 2^(nw fx) = 2 * 2^(nw fx - 1)) by (apply pow2_double; lia). assert (0 < 2^(nw fx - 1)) by (apply pow2_pos; lia).
+        destruct (sg fx); [specialize (Sa eq_refl)|specialize (Ua eq_refl)]; lia. }
+      assert (Z.abs b <= 2^(nw fy)).
+      { assert (E: 2^(nw fy) = 2 * 2^(nw fy - 1)) by (apply pow2_double; lia). assert (0 < 2^(nw fy - 1)) by (apply pow2_pos; lia).
+        destruct (sg fy); [specialize (Sb eq_refl)|specialize (Ub eq_refl)]; lia. }
+      rewrite pow2_split by lia. rewrite Z.abs_mul. nia.
+    - rewrite Hlp. fold n. assert (P62: 2^(clog2 n + (nw fx + nw fy)) <= 2^62) by (apply pow2_le; lia). rewrite pow2_split in P62 by lia.
+      assert (2^62 < 2^63) by (apply pow2_lt; lia). assert (0 < 2^(nw fx + nw fy)) by (apply pow2_pos; lia). nia. }
+  unfold fxp_dot. fold n. fold prods. rewrite Hsum.
+  destruct (reduce_store_exact (dot_fmt fx fy n) r o [zsum prods]) as (w & Hs & Hcodes & Ho & Hu).
+  - unfold dot_fmt. cbn [nw]. lia.
+  - constructor; [exact Hin|constructor].
+  - rewrite Hs. cbn [bind]. exists w. auto.
+Qed.
+
+(* ---------- cumsum: every prefix sum, exact ---------- *)
+Fixpoint prefix_sums (acc : Z) (l : list Z) : list Z :=
+  match l with [] => [] | c :: t => (acc + c) :: prefix_sums (acc + c) t end.
+
+Lemma scan_add_exact (signed : bool) l acc B : 0 <= B -> Forall (fun c => Z.abs c <= B) l ->
+  (signed = false -> 0 <= acc /\ Forall (fun c => 0 <= c) l) ->
+  Z.abs acc + Z.of_nat (length l) * B < 2^63 ->
+  scan_i64 Z.add signed acc l = prefix_sums acc l.
+Proof.
+  intros HB Hl. revert acc. induction Hl as [|c l Hc _ IH]; intros acc Hpos Hacc; [reflexivity|].
+  cbn [scan_i64 prefix_sums length] in *. rewrite Nat2Z.inj_succ in Hacc.
+  assert (E64: 2^63 < 2^64) by (apply pow2_lt; lia).
+  assert (Ew: acc_wrap signed (acc + c) = acc + c).
+  { unfold acc_wrap. destruct signed; [apply wrap_i64_small; lia|].
+    destruct (Hpos eq_refl) as (Ha & Hall). inversion Hall; subst. apply wrap_u64_small. lia. }
+  rewrite Ew. f_equal. apply IH; [|lia].
+  intros Hs. destruct (Hpos Hs) as (Ha & Hall). inversion Hall; subst. split; [lia|assumption].
+Qed.
+
+Lemma prefix_sums_in_range f total l acc done : 1 <= nw f -> 1 <= total ->
+  Forall (in_range f) done -> acc = zsum done -> Forall (in_range f) l ->
+  Z.of_nat (length done) + Z.of_nat (length l) <= total ->
+  Forall (in_range (sum_fmt f total)) (prefix_sums acc l).
+Proof.
+  intros Hw Ht Hd Hacc Hl. revert acc done Hd Hacc. induction Hl as [|c l Hc _ IH]; intros acc done Hd Hacc Hlen; [constructor|].
+  cbn [prefix_sums length] in *. rewrite Nat2Z.inj_succ in Hlen.
+  assert (Hsum: acc + c = zsum (c :: done)) by (cbn [zsum fold_right]; fold (zsum done); lia).
+  constructor.
+  - rewrite Hsum. apply sum_in_range; try assumption; [cbn [length]; rewrite Nat2Z.inj_succ; lia | constructor; assumption].
+  - apply (IH (acc + c) (c :: done)); [constructor; assumption | exact Hsum | cbn [length]; rewrite Nat2Z.inj_succ; lia].
+Qed.
+
+Theorem fxp_cumsum_exact f total l r o : 1 <= nw f -> 1 <= total -> Z.of_nat (length l) <= total ->
+  clog2 total + nw f <= 62 -> Forall (in_range f) l ->
+  exists w, fxp_cumsum f total l r o = Ok (sum_fmt f total, w) /\ w_codes w = prefix_sums 0 l /\ w_ovf w = false /\ w_unf w = false.
+Proof.
+  intros Hw Ht Hlen H62 Hr.
+  pose proof (clog2_ge total Ht) as Hc. pose proof (clog2_nonneg total) as Hc0.
+  assert (Hscan: scan_i64 Z.add (sg f) 0 l = prefix_sums 0 l).
+  { assert (P62: 2^(clog2 total + nw f) <= 2^62) by (apply pow2_le; lia). rewrite pow2_split in P62 by lia.
+    assert (2^62 < 2^63) by (apply pow2_lt; lia). assert (0 < 2^(nw f)) by (apply pow2_pos; lia). assert (0 < 2^(clog2 total)) by (apply pow2_pos; lia).
+    apply (scan_add_exact (sg f) l 0 (2^(nw f))); [lia| | |cbn; nia].
+    - eapply Forall_impl; [|exact Hr]. intros c Hcr. destruct (code_mag f c Hw Hcr) as (Sa & Ua).
+      assert (E: 2^(nw f) = 2 * 2^(nw f - 1)) by (apply pow2_double; lia). assert (0 < 2^(nw f - 1)) by (apply pow2_pos; lia).
+      destruct (sg f); [specialize (Sa eq_refl)|specialize (Ua eq_refl)]; lia.
+    - intros Hs. split; [lia|]. eapply Forall_impl; [|exact Hr]. intros c Hcr. unfold in_range, cmin in Hcr. rewrite Hs in Hcr. lia. }
+  unfold fxp_cumsum. rewrite Hscan.
+  destruct (reduce_store_exact (sum_fmt f total) r o (prefix_sums 0 l)) as (w & Hs & Hcodes & Ho & Hu).
+  - cbn [sum_fmt nw]. lia.
+  - apply (prefix_sums_in_range f total l 0 [] Hw Ht (Forall_nil _) eq_refl Hr). cbn [length]. lia.
+  - rewrite Hs. cbn [bind]. exists w. auto.
+Qed.
+
+(* ---------- prod: the product of all factors, exact, in a word count times as wide ---------- *)
+Definition zprod (l : list Z) : Z := fold_right Z.mul 1 l.
+
+Lemma zprod_bound l B : 1 <= B -> Forall (fun c => Z.abs c <= B) l -> Z.abs (zprod l) <= B^(Z.of_nat (length l)).
+Proof.
+  intros HB. induction 1 as [|c l Hc _ IH]; [cbn; lia|].
+  cbn [zprod fold_right length]. fold (zprod l). rewrite Nat2Z.inj_succ, Z.pow_succ_r by lia. rewrite Z.abs_mul.
+  assert (0 < B^(Z.of_nat (length l))) by (apply Z.pow_pos_nonneg; lia). nia.
+Qed.
+
+Lemma prod_acc_exact (signed : bool) l acc B M : 1 <= B -> Forall (fun c => Z.abs c <= B) l ->
+  (signed = false -> 0 <= acc /\ Forall (fun c => 0 <= c) l) ->
+  Z.abs acc * B^(Z.of_nat (length l)) <= M -> M < 2^63 ->
+  fold_left (fun a c => acc_wrap signed (a * c)) l acc = acc * zprod l.
+Proof.
+  intros HB Hl. revert acc. induction Hl as [|c l Hc _ IH]; intros acc Hpos Hacc HM; [cbn; lia|].
+  cbn [fold_left zprod fold_right length] in *. fold (zprod l). rewrite Nat2Z.inj_succ, Z.pow_succ_r in Hacc by lia.
+  assert (PB: 0 < B^(Z.of_nat (length l))) by (apply Z.pow_pos_nonneg; lia).
+  assert (E64: 2^63 < 2^64) by (apply pow2_lt; lia).
+  assert (Hac: Z.abs (acc * c) * B^(Z.of_nat (length l)) <= M) by (rewrite Z.abs_mul; nia).
+  assert (Hsmall: Z.abs (acc * c) < 2^63) by nia.
+  assert (Ew: acc_wrap signed (acc * c) = acc * c).
+  { unfold acc_wrap. destruct signed; [apply wrap_i64_small; lia|].
+    destruct (Hpos eq_refl) as (Ha & Hall). inversion Hall; subst. apply wrap_u64_small. nia. }
+  rewrite Ew. rewrite IH; [ring| |exact Hac|exact HM].
+  intros Hs. destruct (Hpos Hs) as (Ha & Hall). inversion Hall; subst. split; [nia|assumption].
+Qed.
+
+Lemma pow2_pow a n : 0 <= a -> 0 <= n -> (2^a)^n = 2^(n * a).
+Proof. intros Ha Hn. rewrite <- Z.pow_mul_r by lia. f_equal. lia. Qed.
+
+Theorem prod_in_range f l : 1 <= nw f -> (1 <= length l)%nat -> Forall (in_range f) l ->
+  in_range (prod_fmt f (Z.of_nat (length l))) (zprod l).
+Proof.
+  intros Hw Hne Hr. set (n := Z.of_nat (length l)). assert (Hn: 1 <= n) by (unfold n; lia).
+  unfold in_range, prod_fmt, cmin, cmax. cbn [sg nw].
+  destruct (sg f) eqn:Es.
+  - (* signed: |c| <= 2^(nw-1), so |prod| <= 2^(n*(nw-1)) *)
+    assert (Hb: Forall (fun c => Z.abs c <= 2^(nw f - 1)) l).
+    { eapply Forall_impl; [|exact Hr]. intros c Hc. destruct (code_mag f c Hw Hc) as (Sa & _). specialize (Sa Es). lia. }
+    assert (P1: 1 <= 2^(nw f - 1)) by (assert (0 < 2^(nw f - 1)) by (apply pow2_pos; lia); lia).
+    pose proof (zprod_bound l _ P1 Hb) as Hz. fold n in Hz. rewrite pow2_pow in Hz by lia.
+    destruct (Z.eq_dec n 1) as [E1|Hn2].
+    + (* a single factor: the code itself *)
+      destruct l as [|c [|c2 l]]; cbn [length] in *; try lia. inversion Hr; subst. cbn [zprod fold_right].
+      rewrite Z.mul_1_r. replace (n * nw f - 1) with (nw f - 1) by lia. unfold in_range, cmin, cmax in H1. rewrite Es in H1. exact H1.
+    + assert (2^(n * (nw f - 1)) <= 2^(n * nw f - 2)) by (apply pow2_le; nia).
+      assert (E: 2^(n * nw f - 1) = 2 * 2^(n * nw f - 2)) by (replace (n * nw f - 2) with (n * nw f - 1 - 1) by lia; apply pow2_double; nia).
+      assert (0 < 2^(n * nw f - 2)) by (apply pow2_pos; nia). lia.
+  - assert (Hb: Forall (fun c => 0 <= c <= 2^(nw f) - 1) l).
+    { eapply Forall_impl; [|exact Hr]. intros c Hc. unfold in_range, cmin, cmax in Hc. rewrite Es in Hc. exact Hc. }
+    assert (Hpos: 0 <= zprod l) by (clear - Hb; induction Hb as [|c l Hc _ IH]; cbn [zprod fold_right]; [lia | fold (zprod l); nia]).
+    assert (Hb': Forall (fun c => Z.abs c <= 2^(nw f) - 1) l) by (eapply Forall_impl; [|exact Hb]; intros c Hc; cbv beta in *; lia).
+    assert (P2: 2 <= 2^(nw f)) by (assert (2^1 <= 2^(nw f)) by (apply pow2_le; lia); lia).
+    pose proof (zprod_bound l (2^(nw f) - 1) ltac:(lia) Hb') as Hz. fold n in Hz.
+    assert (Hlt: (2^(nw f) - 1)^n < (2^(nw f))^n) by (apply Z.pow_lt_mono_l; lia).
+    rewrite pow2_pow in Hlt by lia. lia.
+Qed.
+
+Theorem fxp_prod_exact f l r o : 1 <= nw f -> (1 <= length l)%nat -> Z.of_nat (length l) * nw f <= 62 -> Forall (in_range f) l ->
+  exists w, fxp_prod f (Z.of_nat (length l)) l r o = Ok (prod_fmt f (Z.of_nat (length l)), w) /\
+    w_codes w = [zprod l] /\ w_ovf w = false /\ w_unf w = false.
+Proof.
+  intros Hw Hne H62 Hr. pose proof (prod_in_range f l Hw Hne Hr) as Hin.
+  set (n := Z.of_nat (length l)) in *. assert (Hn: 1 <= n) by (unfold n; lia).
+  assert (Hprod: prod_i64 (sg f) l = zprod l).
+  { unfold prod_i64. assert (P1: 1 <= 2^(nw f)) by (assert (0 < 2^(nw f)) by (apply pow2_pos; lia); lia).
+    rewrite (prod_acc_exact (sg f) l 1 (2^(nw f)) (2^62) P1); [lia| | | |apply pow2_lt; lia].
+    - eapply Forall_impl; [|exact Hr]. intros c Hc. destruct (code_mag f c Hw Hc) as (Sa & Ua).
+      assert (E: 2^(nw f) = 2 * 2^(nw f - 1)) by (apply pow2_double; lia). assert (0 < 2^(nw f - 1)) by (apply pow2_pos; lia).
+      destruct (sg f); [specialize (Sa eq_refl)|specialize (Ua eq_refl)]; lia.
+    - intros Hs. split; [lia|]. eapply Forall_impl; [|exact Hr]. intros c Hc. unfold in_range, cmin in Hc. rewrite Hs in Hc. lia.
+    - fold n. rewrite pow2_pow by lia. change (Z.abs 1) with 1. rewrite Z.mul_1_l. apply pow2_le. nia. }
+  unfold fxp_prod. rewrite Hprod.
+  destruct (reduce_store_exact (prod_fmt f n) r o [zprod l]) as (w & Hs & Hcodes & Ho & Hu).
+  - unfold prod_fmt. cbn [nw]. nia.
+  - constructor; [exact Hin|constructor].
+  - rewrite Hs. cbn [bind]. exists w. auto.
+Qed.
